@@ -661,6 +661,30 @@ C04_TablesAreImage == C04_Applies => U4!TablesAreImage(tables.up4, sess, cfg.up4
 C04_InterfacesThroughout == (OnUp4 /\ alive) => U4!IfacesOK(tables.up4, cfg.up4)
 Up4Envelope == OnUp4 => U4!WorldEnvelope(sess)
 
+\* C15 (UP4 datapath): identifiers under write failures
+HasPools == OnUp4 /\ snap.has /\ "up4" \in DOMAIN snap
+PoolsOf(sn) == [ctrOut |-> AsSet(sn.up4.ctrOut), appCellOut |-> AsSet(sn.up4.appCellOut), sessCellOut |-> AsSet(sn.up4.sessCellOut),
+                peerOut |-> AsSet(sn.up4.peerOut), peerDup |-> AsSet(sn.up4.peerDup), appIdOut |-> AsSet(sn.up4.appIdOut), appIdDup |-> AsSet(sn.up4.appIdDup)]
+C15_CounterCellsExclusive == OnUp4 => U4!CountersExclusive(tables.up4)
+C15_MeterCellsExclusive == OnUp4 => U4!AppCellsExclusive(tables.up4) /\ U4!SessCellsExclusive(tables.up4)
+C15_NotFreeWhileInUse == (HasPools /\ last.ev = "req") => U4!NotFreeWhileUsed(tables.up4, PoolsOf(snap))
+C15_NoIdTwiceInPool == HasPools => U4!NoDuplicatesInPools(PoolsOf(snap))
+\* a tunnel peer ID that an entry of the switch still refers to is neither freed nor without its tunnel_peers entry
+C15_PeerIdsInUseStayAllocated == (OnUp4 /\ last.ev = "req") => U4!PeerRefsOK(tables.up4, IF HasPools THEN PoolsOf(snap) ELSE U4!NoPools, HasPools)
+LineOfLast == IF l > 1 /\ l - 1 <= Len(Trace) THEN Trace[l - 1] ELSE [ev |-> "none"]
+ForcedFailure == LineOfLast.ev = "req" /\ "fault" \in DOMAIN LineOfLast /\ LineOfLast.fault.hit
+C15_FailedWriteMeansRejection == (OnUp4 /\ last.ev = "req" /\ last.kind \in {"estab", "mod"} /\ ForcedFailure) => ~last.accepted
+AliasC15 == [l |-> l, last |-> last, live |-> DOMAIN sess,
+             fault |-> IF ForcedFailure THEN LineOfLast.fault ELSE <<>>,
+             diag |-> IF OnUp4 THEN U4!IdDiag(tables.up4, IF HasPools THEN PoolsOf(snap) ELSE U4!NoPools) ELSE <<>>]
+
+\* C16 (UP4 datapath): every update received with the last consumed line conforms to the served P4Info
+PV == INSTANCE P4Valid
+WritesOfLast == IF l > 1 /\ l - 1 <= Len(Trace) /\ "writes" \in DOMAIN Trace[l - 1] THEN Trace[l - 1].writes ELSE <<>>
+C16_WritesConformToP4Info == OnUp4 => \A i \in 1..Len(WritesOfLast) : PV!WriteValid(WritesOfLast[i], cfg.p4info)
+AliasC16 == [l |-> l, last |-> last,
+             bad |-> IF OnUp4 THEN {PV!WriteDiag(WritesOfLast[i], cfg.p4info) : i \in {j \in 1..Len(WritesOfLast) : ~PV!WriteValid(WritesOfLast[j], cfg.p4info)}} ELSE {}]
+
 \* C14
 C14_EndMarkersToOldTunnelOnce == chk.markers
 
